@@ -11,8 +11,9 @@ CONSTANTS
   TickSteps = {1, 3}
   MaxTracked = 2
   SweepCap = 1
+  IndexMode = "exact"
 VIEW view
 CONSTRAINT Bounded
-INVARIANTS TypeOK OneRecordPerRegistration PostSweepExact ExpiredNeverMatchesAfterSweep
+INVARIANTS TypeOK OneRecordPerRegistration IndexExact PostSweepExact ExpiredNeverMatchesAfterSweep
 PROPERTIES NeverRemovedEarly ValidMonotone
 CHECK_DEADLOCK FALSE
